@@ -64,6 +64,11 @@ func main() {
 			ids = append(ids, id)
 		}
 		sort.Strings(ids)
+		if os.Getenv("HL_RULESET") == "round14" {
+			// sweep of the negative controls for the rules added or widened in round 14 only (one pseudo property)
+			ids = []string{"C10"}
+			specs["C10"] = &PropSpec{ID: "C10", Rules: []func(*Ctx){ruleAncestorWalk, ruleParserAlias, ruleStaleIndex, ruleIndent, ruleTokenOrder, ruleLoaderCycle, ruleLoaderCache, rulePrefixGuard, ruleNilVsEmpty}}
+		}
 		worst := 0
 		for _, id := range ids {
 			c := NewCtx(p, id, *tier)
